@@ -6,12 +6,18 @@ import CE.Canon
   Stream-level CBE round trip for the structural fragment of the event alphabet: containers,
   Booleans, null, padding, comments, integers of every width and sign (all three integer event
   forms), big integers up to 8192 bits, identifiers (markers, references, records, record types), UIDs, strings and resource
-  identifiers of any length (short form and chunk-header form) — streams of any length and
+  identifiers of any length and typed arrays of byte-multiple elements sent whole (short form
+  and chunk-header form) — streams of any length and
   nesting.  What is NOT in the fragment: floats, decimals, times,
-  typed arrays and chunked arrays (their per-event behaviour is tied by the CBE.ENC / CBE.DEC correspondence and
+  bit arrays, media, custom types and arrays sent in several chunks (their per-event behaviour is tied by the CBE.ENC / CBE.DEC correspondence and
   the round-trip oracle of `bin/check C01`).
 -/
 namespace CE.Cbe
+
+/-- typed arrays whose elements are whole bytes -/
+def typedArr : ArrT → Bool
+  | .u8 | .u16 | .u32 | .u64 | .i8 | .i16 | .i32 | .i64 | .f16 | .f32 | .f64 | .uid => true
+  | _ => false
 
 /-- the events of the fragment, with the side conditions the encoder's callers guarantee -/
 def simple : Ev → Bool
@@ -24,6 +30,7 @@ def simple : Ev → Bool
     decide (0 < id.length ∧ id.length ≤ maxIdentifierLength)
   | .uid b => decide (b.length = 16)
   | .stringlike t s => (t == .string || t == .rid) && decide (s.length < 2 ^ 61)
+  | .array t c d => typedArr t && decide (d.length = c * (t.elemBits / 8)) && decide (c < 2 ^ 56)
   | _ => false
 
 /-- what the decoder emits for the encoding of a fragment event -/
@@ -40,6 +47,10 @@ def renorm : Ev → List Ev
     if t = .string ∧ s.length ≤ maxSmallArrayLength then [.array .string s.length s]
     else if s.length = 0 then [.arrayBegin t, .arrayChunk 0 false]
     else [.arrayBegin t, .arrayChunk s.length false, .arrayData s]
+  | .array t c d =>
+    if (shortCode t).isSome = true ∧ c ≤ maxSmallArrayLength then [.array t c d]
+    else if c = 0 then [.arrayBegin t, .arrayChunk 0 false]
+    else [.arrayBegin t, .arrayChunk c false, .arrayData d]
   | e => [e]
 
 theorem readId_encId (id rest : Bytes) (h0 : 0 < id.length) (h1 : id.length ≤ maxIdentifierLength) :
@@ -65,6 +76,12 @@ theorem encodeEv_simple (st : EncSt) (e : Ev) (h : simple e = true) :
     | some hd => exact ⟨_, rfl⟩
     | none => rcases h.1 with rfl | rfl <;> exact ⟨_, rfl⟩
   case bigInt o => cases o <;> exact ⟨_, rfl⟩
+  case array t c d =>
+    simp only [simple, Bool.and_eq_true, decide_eq_true_eq] at h
+    simp only [encodeEv, bind, Except.bind, encArrayWhole]
+    cases hsm : smallHeader t c with
+    | some hd => exact ⟨_, rfl⟩
+    | none => cases t <;> simp [typedArr] at h <;> exact ⟨_, rfl⟩
   all_goals (simp [simple] at h <;> first
     | exact ⟨_, rfl⟩
     | (rename_i o; cases o <;> simp [simple] at h; exact ⟨_, rfl⟩))
@@ -119,6 +136,59 @@ theorem decodeVarInt_big (neg : Bool) (mag : Nat) (h1 : 2 ^ 64 ≤ mag) (h2 : ma
   simp only [this, if_false, bind, Except.bind, takeN_leBytes, leNat_leBytes_byteLen]
   have h8 : ¬ byteLen mag ≤ 8 := by omega
   simp [h8]
+
+
+theorem decodeChunks_single (w n : Nat) (hw : 0 < w) (hw16 : w ≤ 16) (hn : n < 2 ^ 56) (d rest : Bytes)
+    (hd : d.length = n * w) (fuel : Nat) :
+    decodeChunks (8 * w) (fuel + 1) (chunkHeader n false ++ (d ++ rest)) =
+      .ok (if n = 0 then [Ev.arrayChunk 0 false] else [Ev.arrayChunk n false, Ev.arrayData d], rest) := by
+  unfold decodeChunks chunkHeader
+  have h2 : n * 2 % 2 ^ 64 = n * 2 := Nat.mod_eq_of_lt (by omega)
+  simp only [Bool.false_eq_true, if_false, Nat.or_zero, h2]
+  have hu : readUleb (2 ^ 64 - 1) (uleb (n * 2) ++ (d ++ rest)) = .ok (n * 2, d ++ rest) := by
+    unfold readUleb
+    rw [unuleb_uleb (n * 2) (by omega)]
+    have : ¬ n * 2 > 2 ^ 64 - 1 := by omega
+    simp [this]
+  simp only [hu]
+  have hc : n * 2 / 2 = n := by omega
+  have hm : (n * 2 % 2 == 1) = false := by simp
+  have hmax : ¬ n > maxInt := by simp [maxInt]; omega
+  have hnw : n * w < 2 ^ 60 := by
+    calc n * w ≤ n * 16 := Nat.mul_le_mul_left n hw16
+      _ < 2 ^ 60 := by omega
+  have hb : elemsToBytes (8 * w) n % 2 ^ 64 = n * w := by
+    unfold elemsToBytes
+    have e1 : n * (8 * w) = (n * w) * 8 := by rw [Nat.mul_comm 8 w, Nat.mul_assoc]
+    have : n * (8 * w) % 2 ^ 64 = (n * w) * 8 := by rw [e1]; exact Nat.mod_eq_of_lt (by omega)
+    have h81 : ¬ (8 * w = 1 ∧ n % 8 ≠ 0) := by omega
+    simp only [this, h81, if_false]
+    omega
+  simp only [hc, hm, hmax, if_false, hb]
+  by_cases h0 : n = 0
+  · subst h0
+    have : d = [] := List.eq_nil_of_length_eq_zero (by simpa using hd)
+    subst this
+    simp
+  · have hne : ¬ n * w = 0 := by
+      intro h; rcases Nat.mul_eq_zero.mp h with h | h <;> omega
+    simp only [h0, hne, if_false]
+    have := takeN_append d rest
+    rw [hd] at this
+    simp [this]
+
+
+/-- short form: type byte = code | count, count ≤ 15 -/
+theorem short_typed : ∀ (t : ArrT) (code : Nat), shortCode t = some (code, true) → ∀ c : Fin 16,
+    plane7fShort ((u8 (code ||| c.val)).toNat / 16 * 16) = some t ∧ (u8 (code ||| c.val)).toNat % 16 = c.val := by
+  intro t code h
+  cases t <;> simp [shortCode] at h <;> subst h <;> decide +kernel
+
+theorem long_typed : ∀ (t : ArrT) (code : Nat), typedArr t = true → arrayCode t = some (code, true) →
+    plane7fShort ((u8 code).toNat / 16 * 16) = none ∧ (u8 code).toNat ≠ pMarker ∧ (u8 code).toNat ≠ pRecordType ∧
+    (u8 code).toNat ≠ pRemoteRef ∧ (u8 code).toNat ≠ pMedia ∧ plane7fArray (u8 code).toNat = some t := by
+  intro t code ht h
+  cases t <;> simp [typedArr] at ht <;> simp [arrayCode] at h <;> subst h <;> decide
 
 
 theorem encBigInt_bytes (i : Int) :
@@ -306,6 +376,75 @@ theorem decodeOne_simple (st : EncSt) (e : Ev) (h : simple e = true) (bs rest : 
     simp only [hs, hm, hne, if_true, if_false]
     rw [lift_bind_ok _ _ (fun p : Bytes × Bytes => ([Ev.recordType p.1], p.2)) (readId_encId id rest h.1 h.2)]
     rfl
+  case array t c d =>
+    simp only [simple, Bool.and_eq_true, decide_eq_true_eq] at h
+    obtain ⟨⟨ht, hlen⟩, hc56⟩ := h
+    simp only [encodeEv, bind, Except.bind, encArrayWhole] at henc
+    have hbits : t.elemBits = 8 * (t.elemBits / 8) ∧ 0 < t.elemBits / 8 ∧ t.elemBits / 8 ≤ 16 := by
+      cases t <;> simp [typedArr] at ht <;> simp [ArrT.elemBits]
+    simp only [renorm]
+    by_cases hshort : (shortCode t).isSome = true ∧ c ≤ maxSmallArrayLength
+    · obtain ⟨hs, hle⟩ := hshort
+      have hle' : c ≤ 15 := by simpa [maxSmallArrayLength] using hle
+      obtain ⟨⟨code, p7⟩, hsc⟩ := Option.isSome_iff_exists.mp hs
+      have hp7 : p7 = true := by
+        cases t <;> simp [typedArr] at ht <;> simp [shortCode] at hsc <;> simp [hsc]
+      subst hp7
+      have hsm : smallHeader t c = some [u8 tPlane7f, u8 (code ||| c)] := by
+        simp only [smallHeader, hsc]
+        have : ¬ c > maxSmallArrayLength := by omega
+        simp [this]
+      simp only [hsm] at henc
+      simp at henc; subst henc
+      obtain ⟨hf1, hf2⟩ := short_typed t code hsc ⟨c, by omega⟩
+      refine ⟨by simp, ?_⟩
+      have hf1' : plane7fShort ((u8 (code ||| c)).toNat / 16 * 16) = some t := hf1
+      have hf2' : (u8 (code ||| c)).toNat % 16 = c := hf2
+      simp only [hs, hle, and_self, if_true, List.cons_append, List.nil_append]
+      rw [decodeOne_byte _ .plane7f (by decide)]
+      simp only [decodeTok, decodePlane7f, hf1', hf2']
+      have htk : takeN (c * (t.elemBits / 8)) (d ++ rest) = .ok (d, rest) := by
+        have := takeN_append d rest
+        rwa [hlen] at this
+      rw [lift_bind_ok _ _ (fun p : Bytes × Bytes => ([Ev.array t c p.1], p.2)) htk]
+    · have hsm : smallHeader t c = none := by
+        simp only [smallHeader]
+        by_cases hgt : c > maxSmallArrayLength
+        · simp [hgt]
+        · have hnone : shortCode t = none := by
+            cases hsc : shortCode t with
+            | none => rfl
+            | some v => exact absurd ⟨by simp [hsc], by omega⟩ hshort
+          simp [hgt, hnone]
+      simp only [hsm] at henc
+      simp only [hshort, if_false]
+      have hd' : d.length = c * (t.elemBits / 8) := hlen
+      by_cases hu8 : t = .u8
+      · subst hu8
+        simp [arrayHeader, arrayCode, pure, Except.pure] at henc; subst henc
+        refine ⟨by simp, ?_⟩
+        rw [List.cons_append, List.append_assoc, decodeOne_byte _ .arrU8 (by decide)]
+        simp only [decodeTok, decodeArray]
+        have := decodeChunks_single 1 c (by decide) (by decide) hc56 d rest (by simpa [ArrT.elemBits] using hd')
+          (chunkHeader c false ++ (d ++ rest)).length
+        simp only [ArrT.elemBits, Nat.mul_one] at this ⊢
+        rw [this]
+        by_cases h0 : c = 0 <;> simp [h0]
+      · obtain ⟨code, hcode⟩ : ∃ code, arrayCode t = some (code, true) := by
+          cases t <;> simp [typedArr] at ht <;> simp [arrayCode] at hu8 ⊢
+        have hah : arrayHeader t = .ok [u8 tPlane7f, u8 code] := by simp [arrayHeader, hcode]
+        simp only [hah] at henc
+        simp [pure, Except.pure] at henc; subst henc
+        obtain ⟨g1, g2, g3, g4, g5, g6⟩ := long_typed t code ht hcode
+        refine ⟨by simp, ?_⟩
+        simp only [List.cons_append, List.nil_append, List.append_assoc]
+        rw [decodeOne_byte _ .plane7f (by decide)]
+        simp only [decodeTok, decodePlane7f, g1, g2, g3, g4, g5, g6, if_false, decodeArray]
+        have := decodeChunks_single (t.elemBits / 8) c hbits.2.1 hbits.2.2 hc56 d rest hd'
+          (chunkHeader c false ++ (d ++ rest)).length
+        rw [← hbits.1] at this
+        rw [this]
+        by_cases h0 : c = 0 <;> simp [h0]
   case stringlike t s =>
     simp only [simple, Bool.and_eq_true, Bool.or_eq_true, beq_iff_eq, decide_eq_true_eq] at h
     obtain ⟨ht, hlen⟩ := h
@@ -368,6 +507,14 @@ theorem canon_arrayBegin1 (t : ArrT) (s : Bytes) (xs : List Ev) (hcl : clean xs 
   rw [hg]
   cases t <;> simp_all [canonArr]
 
+theorem canon_arrayBegin1' (t : ArrT) (c : Nat) (d : Bytes) (xs : List Ev) (hcl : clean xs = true) (htb : t ≠ .bit) :
+    canon false (Ev.arrayBegin t :: Ev.arrayChunk c false :: Ev.arrayData d :: xs) = CEv.arr t d :: canon false xs := by
+  rw [canon]
+  have hg : gather (Ev.arrayChunk c false :: Ev.arrayData d :: xs) [] [] = ([c], d, xs) := by
+    simp [gather, gather_clean xs _ _ hcl]
+  rw [hg]
+  cases t <;> simp_all [canonArr]
+
 theorem canon_arrayBegin0 (t : ArrT) (xs : List Ev) (hcl : clean xs = true) (htb : t ≠ .bit) :
     canon false (Ev.arrayBegin t :: Ev.arrayChunk 0 false :: xs) = CEv.arr t [] :: canon false xs := by
   rw [canon]
@@ -380,6 +527,24 @@ theorem canon_arrayBegin0 (t : ArrT) (xs : List Ev) (hcl : clean xs = true) (htb
 theorem canon_renorm (e : Ev) (h : simple e = true) (xs ys : List Ev) (hcl : clean xs = true)
     (hxy : canon false xs = canon false ys) : canon false (renorm e ++ xs) = canon false (e :: ys) := by
   cases e
+  case array t c d =>
+    simp only [simple, Bool.and_eq_true, decide_eq_true_eq] at h
+    have htb : t ≠ .bit := by cases t <;> simp [typedArr] at h <;> simp
+    simp only [renorm]
+    by_cases hshort : (shortCode t).isSome = true ∧ c ≤ maxSmallArrayLength
+    · simp only [hshort, and_self, if_true]
+      simp [canon, hxy]
+    · simp only [hshort, if_false]
+      have hcan : canon false (Ev.array t c d :: ys) = CEv.arr t d :: canon false ys := by
+        cases t <;> simp_all [canon, canonArr]
+      by_cases h0 : c = 0
+      · have hd0 : d = [] := List.eq_nil_of_length_eq_zero (by rw [h.1.2, h0]; simp)
+        subst hd0; subst h0
+        simp only [if_true, List.cons_append, List.nil_append]
+        rw [canon_arrayBegin0 t xs hcl htb, hxy, hcan]
+      · simp only [h0, if_false, List.cons_append, List.nil_append]
+        have := canon_arrayBegin1' t c d xs hcl htb
+        rw [this, hxy, hcan]
   case stringlike t s =>
     simp only [simple, Bool.and_eq_true, Bool.or_eq_true, beq_iff_eq, decide_eq_true_eq] at h
     simp only [renorm]
@@ -464,6 +629,9 @@ theorem clean_renorm : ∀ (l : List Ev), l.all simple = true → clean (l.flatM
             all_goals rfl
         · rfl
     case stringlike t s =>
+      simp only [renorm]; repeat' split
+      all_goals rfl
+    case array t c d =>
       simp only [renorm]; repeat' split
       all_goals rfl
     case posInt n => simp only [renorm, renormPos]; split <;> rfl
